@@ -4,6 +4,9 @@ import (
 	"context"
 	"encoding/json"
 	"fmt"
+	"k8s.io/client-go/kubernetes"
+	typedappsv1 "k8s.io/client-go/kubernetes/typed/apps/v1"
+	"regexp"
 	"sort"
 	"strings"
 	"testing"
@@ -31,6 +34,9 @@ type C17Case struct {
 	// OrphanMask: bit i set = revision i matches the selector but has no owner (left behind by an orphaning
 	// delete + re-create of the built-in set, not yet adopted): still a revision of the set
 	OrphanMask int `json:"orphan_mask,omitempty"`
+	// LaggingCache: the newest revision of the set is not yet in the API server's watch cache: a list that allows a
+	// cached answer (resourceVersion "0") does not show it, a consistent list does
+	LaggingCache bool `json:"lagging_cache,omitempty"`
 	// Collision: the built-in set's status.collisionCount (nil when 0 is drawn with HasCollision false)
 	HasCollision bool  `json:"has_collision,omitempty"`
 	Collision    int32 `json:"collision,omitempty"`
@@ -64,6 +70,7 @@ func genC17(rt *rapid.T) C17Case {
 		All:       thorough(),
 		Retries:   rapid.IntRange(1, 3).Draw(rt, "retries"),
 	}
+	c.LaggingCache = rapid.IntRange(0, 3).Draw(rt, "laggingCache") == 0
 	if rapid.IntRange(0, 2).Draw(rt, "hasCollision") == 0 {
 		c.HasCollision = true
 		c.Collision = int32(rapid.IntRange(0, 3).Draw(rt, "collision"))
@@ -86,7 +93,49 @@ func (w *c17World) deferViolation(sig, format string, args ...interface{}) {
 	w.viol = append(w.viol, c17Violation{sig, fmt.Sprintf(format, args...)})
 }
 
+// laggingKube: a clientset whose ControllerRevision lists served "from the watch cache" (resourceVersion "0") miss
+// one object that consistent lists show. The fake clientset does not hand list options to reactors, so the typed
+// client is wrapped.
+type laggingKube struct {
+	kubernetes.Interface
+	hide string
+}
+
+func (k laggingKube) AppsV1() typedappsv1.AppsV1Interface {
+	return laggingApps{k.Interface.AppsV1(), k.hide}
+}
+
+type laggingApps struct {
+	typedappsv1.AppsV1Interface
+	hide string
+}
+
+func (a laggingApps) ControllerRevisions(ns string) typedappsv1.ControllerRevisionInterface {
+	return laggingRevs{a.AppsV1Interface.ControllerRevisions(ns), a.hide}
+}
+
+type laggingRevs struct {
+	typedappsv1.ControllerRevisionInterface
+	hide string
+}
+
+func (r laggingRevs) List(ctx context.Context, opts metav1.ListOptions) (*appsv1.ControllerRevisionList, error) {
+	l, err := r.ControllerRevisionInterface.List(ctx, opts)
+	if err != nil || opts.ResourceVersion != "0" {
+		return l, err
+	}
+	out := l.DeepCopy()
+	out.Items = nil
+	for _, it := range l.Items {
+		if it.Name != r.hide {
+			out.Items = append(out.Items, it)
+		}
+	}
+	return out, nil
+}
+
 type c17World struct {
+	lagging  string // name of the revision the watch cache does not hold yet
 	viol     []c17Violation
 	c        *sim.Cluster
 	sel      map[string]string
@@ -125,6 +174,9 @@ func buildC17(cs C17Case) *c17World {
 	}
 	if cs.SelExpr {
 		sts.Spec.Selector.MatchExpressions = []metav1.LabelSelectorRequirement{{Key: "extra", Operator: metav1.LabelSelectorOpExists}}
+	}
+	if cs.LaggingCache && cs.Revs > 0 {
+		w.lagging = fmt.Sprintf("web-r%d", cs.Revs-1)
 	}
 	stored := c.Put(sts).(*appsv1.StatefulSet)
 	tr := true
@@ -202,8 +254,11 @@ func (w *c17World) finalState() string {
 		parts = append(parts, fmt.Sprintf("rev:%s labels=%s owner=%s", r.Name, mapString(r.Labels), ownerString(r.OwnerReferences)))
 	}
 	sort.Strings(parts)
-	return strings.Join(parts, "\n")
+	// the two runs compared live in two simulated clusters, whose UIDs carry different tags
+	return uidTagRe.ReplaceAllString(strings.Join(parts, "\n"), "uid-")
 }
+
+var uidTagRe = regexp.MustCompile(`uid[0-9]+-`)
 
 func mapString(m map[string]string) string {
 	ks := make([]string, 0, len(m))
@@ -360,7 +415,11 @@ func (w *c17World) attempt(rep Rep, faultAt, kind int, desc string) (done bool, 
 		return f
 	}
 	actions, crashed, panicked, stack := c.RunLogged(func() {
-		_, err = helper.Upgrade(context.TODO(), c.Kube(), c.PC(), cur)
+		var kube kubernetes.Interface = c.Kube()
+		if w.lagging != "" {
+			kube = laggingKube{Interface: kube, hide: w.lagging}
+		}
+		_, err = helper.Upgrade(context.TODO(), kube, c.PC(), cur)
 	})
 	c.Intercept = nil
 	for _, v := range w.viol {
